@@ -150,10 +150,15 @@ impl OpenOptions {
             let ino = mutating(
                 node,
                 || format!("create {}", p),
-                || with(|k| {
-                    let now = k.now;
-                    k.nodes[node as usize].disk.create(&p, now)
-                }),
+                || {
+                    // birth time = the node's wall clock (strictly increasing per node unless the
+                    // coarse-clock fault is on, in which case files born in one tick tie)
+                    let id = kernel::me();
+                    with(|k| {
+                        let now = k.systime_ns(id);
+                        k.nodes[node as usize].disk.create(&p, now)
+                    })
+                },
             );
             return Ok(File { node, ino, pos: 0, read: self.read, write: self.write, append: self.append, path: p });
         }
